@@ -307,6 +307,21 @@ func TestLinalg(t *testing.T) {
 			r.ok("")
 		}
 	}
+	// Transpose with two and three batch dimensions (every tier): a permutation of the batch positions leaves the shape
+	// and every rank <= 3 case intact (seed C04-3)
+	for _, sa := range shapes(4, 5, 2) {
+		a := randRef(rng, sa, -2, 2)
+		guard(r, "Transpose", func() {
+			got, err := toT(a, false).Transpose()
+			if err != nil {
+				r.fail("Transpose:error", fmt.Sprintf("%v: %v", sa, err))
+			} else if msg := eqRef(got, refTranspose(a), 0); msg != "" {
+				r.fail("Transpose", fmt.Sprintf("%v: %s", sa, msg))
+			} else {
+				r.ok(fmt.Sprintf("Transpose %v", sa))
+			}
+		})
+	}
 	mr, ms := maxRankSize()
 	all := shapes(1, mr, ms)
 	for _, sa := range all {
